@@ -3,7 +3,7 @@
   for EVERY byte string handed to `NewVerifyStream`.
 
   The packets are those the front end produced from the bytes (`Front.readSig`:
-  `Wire`, else go-codec's typed decoding `Codec`); the verifier's state is
+  go-codec's typed decoding `Codec`; `Wire` only where `Codec` says unmodelled); the verifier's state is
   `⟨h.version, P.hash hb, pk⟩` for the header `h` (bytes `hb`) decoded from them
   and the key `pk` the keyring returned for `h.senderPublic`.
 
@@ -59,11 +59,12 @@ theorem C06_clean_end_iff_complete_bytes (P : Prims) (valid : Validator) (hvalid
     exact (Ver.run_ok_iff P ⟨h.version, P.hash hb, pk⟩ ps.items ps.tail 1).mpr hc
 
 /-- the all-at-once form (`Verify`) on what the front end read returns a message
-    only if the streaming form on the same bytes ended cleanly -/
+    only if the streaming form on the same bytes ended cleanly, and then what the
+    streaming form released, attributed to the signer it reports -/
 theorem C06_all_at_once_only_if_clean_bytes (P : Prims) (valid : Validator) (kr : Keyring) (msg : Bytes)
     (hr : HeaderRead SigHeader) (ps : PStream SigBlock) (hread : Front.readSig msg = .ok (hr, ps))
     (k m : Bytes) (h : Sign.verifyAll P valid kr hr ps = .ok (k, m)) :
-    ∃ r, Sign.verifyBytes P valid kr msg = .ok r ∧ r.err = none ∧ r.released = m := by
+    ∃ r, Sign.verifyBytes P valid kr msg = .ok r ∧ r.err = none ∧ r.released = m ∧ r.signer = some k := by
   refine ⟨_, sig_verifyBytes_of_read hread, ?_⟩
   unfold Sign.verifyAll at h
   generalize Sign.verifyStream P valid kr hr ps = r at h
@@ -135,6 +136,45 @@ example : (match Wire.splitSig goodMapMsg with | .unmodelled _ => true | .ok _ =
 
 example : (Sign.verifyBytes Toy.prims knownMajor anyRing goodMapMsg).toOption.map
     (fun r => (r.released, r.err)) = some ([0x41], none) := by decide +kernel
+
+/-! ## the audit's inputs (repair R1), kernel-evaluated on the model
+
+  A genuine (toy-signed) V2 message, one final packet `94 c3 <sig> "A" <extra>`
+  with a reserved extra element nested `d` arrays deep (`91^d 00`): go-codec's depth
+  budget inside a V2 block is 97 — depth 97 is accepted, depth 98 is a decode error
+  and NOTHING is released (Go: `max depth exceeded`).  The spec-shaped reader
+  accepts both; the front end (Codec first) follows go-codec. -/
+
+def deepMsg (d : Nat) : Bytes :=
+  headerPacket goodHeader ++ [0x94, 0xc3] ++
+    Msgpack.encBin (Toy.prims.sign [1]
+      ((attachedSignatureInput Toy.prims v2 (Toy.prims.hash goodHeader) [0x41] 0 true).toOption.getD [])) ++
+    [0xc4, 0x01, 0x41] ++ List.replicate d 0x91 ++ [0x00]
+
+example : (Sign.verifyBytes Toy.prims knownMajor anyRing (deepMsg 97)).toOption.map
+    (fun r => (r.released, r.err)) = some ([0x41], none) := by decide +kernel
+
+example : (Sign.verifyBytes Toy.prims knownMajor anyRing (deepMsg 98)).toOption.map
+    (fun r => (r.released, r.err)) = some ([], some .decodeError) := by decide +kernel
+
+example : (match Wire.splitSig (deepMsg 98) with | .ok x => x.2.items.length == 1 && x.2.tail == .eof | _ => false) = true := by
+  decide +kernel
+
+/-- read ORDER (finding #2): `93 c3 05 c6 00001000 01 02` — an integer where the
+    signature is expected, then a truncated bin32: go-codec reports the wrong type
+    (decode error), not the truncation -/
+example : (Sign.verifyBytes Toy.prims knownMajor anyRing
+      (headerPacket goodHeader ++ [0x93, 0xc3, 0x05, 0xc6, 0x00, 0x00, 0x10, 0x00, 0x01, 0x02])).toOption.map
+    (fun r => (r.released, r.err)) = some ([], some .decodeError) := by decide +kernel
+
+/-- … while the same truncated object BEHIND the final packet is read by
+    `assertEndOfStream` generically: `io.EOF`, a clean end — Go accepts the message
+    (`Front.settle`) -/
+example : (Sign.verifyBytes Toy.prims knownMajor anyRing (deepMsg 3 ++ [0xc4, 0x05, 0x01])).toOption.map
+    (fun r => (r.released, r.err)) = some ([0x41], none) := by decide +kernel
+
+example : (Sign.verifyBytes Toy.prims knownMajor anyRing (deepMsg 3 ++ [0x05])).toOption.map
+    (fun r => (r.released, r.err)) = some ([0x41], some .trailingGarbage) := by decide +kernel
 
 example : Toy.prims.Lawful := Toy.lawful
 
